@@ -510,10 +510,12 @@ class SimFS(object):
         if "w" in mode or "a" in mode:
             self._park_foreign_thread()
             if self.open_fault is not None:
+                name = self.open_fault if self.open_fault in ("EACCES", "EIO", "EINTR", "ESTALE", "EBUSY") else "EACCES"
                 self.open_fault = None
-                self.sim.faults["sink_open_eacces"] += 1
-                self.sim.log.add("open", "fault:EACCES", mode)
-                raise OSError(errno.EACCES, "simulated EACCES")
+                self.sim.faults["sink_open_" + name.lower()] += 1
+                self.sim.log.add("open", "fault:" + name, mode)
+                exc = PermissionError if name == "EACCES" else OSError
+                raise exc(getattr(errno, name), "simulated " + name)
             real = builtins.open(path, mode, *a, **k)
             if "a" in mode:
                 self.append_opens += 1
